@@ -1,5 +1,6 @@
 """C10 the parser yields exactly the documented meaning, or rejects."""
 import itertools
+import os
 
 from .. import drive, forms, opsem, refparse, scopes
 from ..forms import BOT, TOP, A, N, O, V
@@ -120,11 +121,28 @@ def bb_layout(sig, conds, k, name="kb"):
 NLAYOUT = 8
 
 
-def impl_bb(text, what="bb"):
+_TMPDIR = None
+
+
+def impl_bb(text, what="bb", via_file=False):
     from parser.Wrappers import parse_belief_base, parse_queries
 
+    arg = text
+    if via_file:      # file-or-string detection: the same text, handed over as a path
+        global _TMPDIR
+        import tempfile
+
+        if _TMPDIR is None:
+            _TMPDIR = tempfile.mkdtemp(prefix="vf-c10-")
+            import atexit
+            import shutil
+
+            atexit.register(shutil.rmtree, _TMPDIR, True)
+        arg = os.path.join(_TMPDIR, "f%d.%s" % (abs(hash(text)) % 10 ** 9, "cl" if what == "bb" else "clq"))
+        with open(arg, "w", newline="") as fh:
+            fh.write(text)
     try:
-        bb = parse_belief_base(text) if what == "bb" else parse_queries(text)
+        bb = parse_belief_base(arg) if what == "bb" else parse_queries(arg)
     except BaseException as e:  # noqa: BLE001
         if isinstance(e, (KeyboardInterrupt, SystemExit, MemoryError)):
             raise
@@ -140,9 +158,9 @@ def describe_bb(bb):
     return out
 
 
-def judge_bb(res, prop, text, family, what="bb"):
+def judge_bb(res, prop, text, family, what="bb", via_file=False):
     """One text through parse_belief_base / parse_queries and through the reference recogniser."""
-    bb, err = impl_bb(text, what)
+    bb, err = impl_bb(text, what, via_file)
     try:
         if what == "bb":
             rsig, blocks = refparse.parse_file(text)
@@ -154,7 +172,7 @@ def judge_bb(res, prop, text, family, what="bb"):
         rsig = rconds = None
         why = str(r)
     res.evals += 1
-    case = {"text": text, "family": family, "config": "parse_belief_base" if what == "bb" else "parse_queries"}
+    case = {"text": text, "family": family, "config": "parse_belief_base" if what == "bb" else "parse_queries", "via_file": via_file}
     if bb is None:
         res.counters["%s_rejected_%s" % (what, "malformed" if why else "but_in_reference_language")] += 1
         return
@@ -236,7 +254,7 @@ class C10(Check):
             "{a,b,Top,Bottom} (3 280) and a depth-3 slice, printed minimally and fully parenthesised, in five "
             "whitespace/comment layouts; (iii) every one-conditional base over the 256 conditionals of C2 and a slice of "
             "three-conditional bases in 8 file layouts (CRLF, blank lines, comments, no trailing newline, one line, tabs) "
-            "through parse_belief_base, and the C2 conditionals as query lists through parse_queries; (iv) every "
+            "through parse_belief_base (as strings and as files on disk), and the C2 conditionals as query lists / query files through parse_queries; (iv) every "
             "single-token deletion, duplication, substitution (15 tokens) and insertion (5 tokens) and every appended "
             "token of three well-formed files and two query lists. Oracle: independent recursive-descent recogniser "
             "(vf/refparse.py): accepted => in the reference language with the same truth table / signature / order / keys "
@@ -306,6 +324,8 @@ class C10(Check):
             for cnd in scopes.C2[lo:hi]:
                 for k in range(NLAYOUT):
                     judge_bb(res, self.id, bb_layout(scopes.SIG2, [cnd], k), "B1-layout%d" % k)
+                judge_bb(res, self.id, bb_layout(scopes.SIG2, [cnd], lo % NLAYOUT), "B1-file", via_file=True)
+                judge_bb(res, self.id, forms.ctxt(cnd) + ",\n" + forms.ctxt(cnd, full=True) + "\n", "C2-queryfile", what="q", via_file=True)
                 judge_bb(res, self.id, forms.ctxt(cnd), "C2-query", what="q")
                 judge_bb(res, self.id, forms.ctxt(cnd, full=True) + ",\n" + forms.ctxt(cnd), "C2-query2", what="q")
         elif kind == "bb3":
@@ -320,7 +340,7 @@ class C10(Check):
             toks = tok_nl(MUT_FILES[i])
             for j, (_m, t2) in enumerate(mutations(toks)):
                 if j % 4 == part:
-                    judge_bb(res, self.id, join_nl(t2), "file%d-mutation" % i)
+                    judge_bb(res, self.id, join_nl(t2), "file%d-mutation" % i, via_file=(j % 8 == part))
         elif kind == "mutq":
             toks = tok_nl(MUT_QUERIES[task[1]])
             for _m, t2 in mutations(toks):
@@ -341,7 +361,7 @@ class C10(Check):
         if c["config"] == "parse_formula":
             judge_formula(r, self.id, c["text"], c["family"])
         else:
-            judge_bb(r, self.id, c["text"], c["family"], what="bb" if c["config"] == "parse_belief_base" else "q")
+            judge_bb(r, self.id, c["text"], c["family"], what="bb" if c["config"] == "parse_belief_base" else "q", via_file=c.get("via_file", False))
         return {"observed": r.violations[0]["observed"] if r.violations else "no violation", "violates": bool(r.violations)}
 
 
